@@ -206,6 +206,17 @@ impl Report {
             self.errors.push(json!({"sig": sig.into(), "msg": msg.into()}));
         }
     }
+    fn failures_len(&self) -> usize {
+        self.errors.len()
+    }
+    /// mark the failures recorded from position `from` on as belonging to another route (signature prefix)
+    fn relabel_from(&mut self, from: usize, prefix: &str) {
+        for e in self.errors.iter_mut().skip(from) {
+            let sig = format!("{prefix}{}", e["sig"].as_str().unwrap_or("?"));
+            let msg = format!("after a store / restore of the collection: {}", e["msg"].as_str().unwrap_or("?"));
+            *e = json!({"sig": sig, "msg": msg});
+        }
+    }
     /// compare an expected spec value with a projected implementation value
     fn same(&mut self, what: &str, sig: &str, expected: &Value, actual: &Value) -> bool {
         self.count(what);
@@ -485,6 +496,26 @@ pub fn check_c11(scn: &Value, rt: &tokio::runtime::Runtime) -> Report {
             c11_tables(&mut rep, scn, &ix);
             c11_engine(&mut rep, scn, &ix);
             c11_exec(&mut rep, scn, &ix, rt);
+            // Persist: a collection that was stored and restored (serde round trip - how an indexed universe is shipped
+            // to a replica or kept across a restart) is the same collection: equal, with the same tables, and every
+            // look-up by name and by index answers as before
+            let restored = catch(|| -> Result<IndexedInstruments, String> {
+                let text = serde_json::to_string(&ix).map_err(|e| format!("serialise: {e}"))?;
+                serde_json::from_str(&text).map_err(|e| format!("deserialise: {e}"))
+            });
+            match restored {
+                Ok(Ok(back)) => {
+                    rep.count("persist");
+                    if back != ix {
+                        rep.fail("persist:differs", "IndexedInstruments restored from its own serialisation differs from the original");
+                    }
+                    let before = rep.failures_len();
+                    c11_tables(&mut rep, scn, &back);
+                    rep.relabel_from(before, "persist:");
+                }
+                Ok(Err(e)) => rep.fail("persist:serde", format!("IndexedInstruments store / restore failed: {e}")),
+                Err(p) => rep.fail("persist:panic", format!("IndexedInstruments store / restore panicked: {p}")),
+            }
         }
     }
     rep
